@@ -25,4 +25,5 @@ cfd14f6 C11 row-count
 11db1cf C11 conversion-failed
 b5622e6 C11 well-value
 c20a44f C20 identify-raises
+0b358cb C05 write-checksum
 LIST
